@@ -1876,7 +1876,8 @@ impl<'a> Searcher<'a> {
                     return Variant::from_bool(is_binary);
                 }
 
-                return Variant::from_bool(false);
+                // the content cannot be looked at: not known, like the other columns that read it
+                return Variant::empty(VariantType::Bool);
             }
             Field::IsText => {
                 self.fms
@@ -1893,7 +1894,7 @@ impl<'a> Searcher<'a> {
                     return Variant::from_bool(is_text);
                 }
 
-                return Variant::from_bool(false);
+                return Variant::empty(VariantType::Bool);
             }
             Field::IsArchive => {
                 let is_archive = match file_info {
